@@ -43,13 +43,8 @@ func runC14(c *Ctx) {
 	}
 	// discover atoms
 	var agencyAtom, roleAtom, toAtom string
+	agencyAtom, roleAtom = atomComparedWithConst(setState, ".Agency"), atomComparedWithConst(setState, ".config.Role")
 	for _, ef := range edgeFacts(setState) {
-		if i := strings.Index(ef.Fact, ".Agency == "); i > 0 {
-			agencyAtom = ef.Fact[:i+len(".Agency")]
-		}
-		if i := strings.Index(ef.Fact, ".config.Role == "); i > 0 {
-			roleAtom = ef.Fact[:i+len(".config.Role")]
-		}
 		if strings.HasSuffix(ef.Fact, " > 0") && strings.Contains(ef.Fact, ".Timeout") {
 			toAtom = strings.TrimSuffix(ef.Fact, " > 0")
 		}
@@ -241,6 +236,62 @@ func runC14(c *Ctx) {
 		}
 	}
 	okCase := false
+	// the select state that waits on the current timer: a closure returning nil | timer.C, the same written inline
+	// (a nil channel variable set to timer.C when a timer is armed), or timer.C itself
+	var isTimerChanValue func(v ssa.Value, d int) bool
+	isTimerChanValue = func(v ssa.Value, d int) bool {
+		if d > 3 {
+			return false
+		}
+		if strings.HasPrefix(timerChanDesc(v), "time.Timer.C(") {
+			return true
+		}
+		switch x := v.(type) {
+		case *ssa.Phi:
+			n := 0
+			for _, e := range x.Edges {
+				if isNilConst(e) {
+					continue
+				}
+				if !isTimerChanValue(e, d+1) {
+					return false
+				}
+				n++
+			}
+			return n > 0
+		case *ssa.ChangeType:
+			return isTimerChanValue(x.X, d+1)
+		}
+		return false
+	}
+	inlineTimerChan := false
+	for _, in := range fnInstrs(sl) {
+		sel, ok := in.(*ssa.Select)
+		if !ok {
+			continue
+		}
+		for _, st := range sel.States {
+			if st.Send != nil || !isTimerChanValue(st.Chan, 0) {
+				continue
+			}
+			want := "sel:<-" + desc(st.Chan)
+			for _, ef := range edgeFacts(sl) {
+				if ef.Fact != want {
+					continue
+				}
+				inlineTimerChan = true
+				blk := ef.From.Succs[ef.Succ]
+				for _, in2 := range blk.Instrs {
+					if ci, ok := in2.(ssa.CallInstruction); ok && calleeName(ci.Common()) == "protocol.(*Protocol).SendError" {
+						okCase = true
+					}
+				}
+			}
+		}
+	}
+	if inlineTimerChan {
+		c.Ok("timer-channel", "protocol.(*Protocol).stateLoop:inline", sl.Pos(), "select waits on the current timer's channel (nil when none)")
+	}
 	for _, ef := range edgeFacts(sl) {
 		if getTimer != nil && strings.HasPrefix(ef.Fact, "sel:<-call:closure:"+ssaFuncKey(getTimer)) {
 			blk := ef.From.Succs[ef.Succ]
